@@ -411,6 +411,9 @@ Definition executions (s : st) : list event := filter is_exec (log s).
 Definition inspections (s : st) : list event := filter is_inspect (log s).
 Definition wf (s : st) : Prop := cur s < next s.
 Definition init_state (sp : list path) : st := mkSt 0 1 (fun _ => sp) [] [].
+(* the loader only ever reads source files itself (compiled files are at most handed to the import system) *)
+Definition read_ok (e : event) : bool := match e with EvRead _ sfx => source_suffix sfx | _ => true end.
+Definition reads_source_only (s : st) : Prop := forallb read_ok (log s) = true.
 (* every package asked for in a request tree *)
 Fixpoint tree_reqs (t : rtree) : list string := match t with RNode req kids => req :: flat_map tree_reqs kids end.
 
